@@ -12,6 +12,8 @@ Legs (all differential: extracted Model/Client.v vs the real code; monitors eval
            each client's (start-up class, outcome) is looked up in the model's decision table (trace acceptance)
   poison   ONE fresh real server: well-formed but unservable compile requests (real client or hand-built bincode
            frame) FIRST, then ordinary requests for the SAME compiler path on other connections, which must be served
+  bigout   compiler output just below / at / above what fits into one CompileFinished frame: relayed whole, or the
+           connection drops after the acknowledgement and the client compiles locally; never a clipped result
   vanish   DAEMONISED real server; a peer sends a complete well-formed Compile request and closes / resets / half-closes
            before or after the acknowledgement while a bystander compile is in flight: the same server must survive
   kill     the real server SIGKILLed while its compiler is in a scripted phase (detection = before the first
@@ -30,7 +32,9 @@ THEOREMS = ['C11_never_false_success', 'C11_eof_after_ack_falls_back', 'C11_kill
             'C11_chunking_irrelevant', 'C11_connection_isolation', 'C11_only_shutdown_stops_the_server',
             'C11_frame_decoder_total', 'C11_start_up_table', 'C11_addr_in_use_proceeds', 'C11_cold_start_delivers',
             'C11_process_never_false_success', 'C11_failed_probe_does_not_poison',
-            'C11_server_reports_requested_address', 'C11_cold_start_any_address']
+            'C11_server_reports_requested_address', 'C11_cold_start_any_address',
+            'C11_cold_start_stale_environment', 'C11_unusable_tmpdir_is_an_error',
+            'C11_oversized_result_falls_back', 'C11_result_whole_or_not_at_all']
 ASSUMPTIONS = [
     'which error kind the kernel reports to the client for a lost peer (clean EOF vs ECONNRESET) is an input of the model (the `ending` of the stream), not derived: observed in the kill leg (a SIGKILLed server that had read the whole request yields EOF) — the claim is PARTIAL there',
     'bytes written by the server before it dies are delivered to the client before the end-of-stream indication (TCP ordering; Linux keeps already queued data readable after an RST)',
@@ -538,18 +542,29 @@ def compare_coldstart(m, i):
 ADDR_KINDS = [b'tcp', b'uds_plain', b'uds_symlink', b'uds_dotdot', b'uds_dot', b'uds_abstract']
 
 
+ENV_KINDS = [b'plain', b'xdg_ok', b'xdg_stale', b'xdg_notdir', b'xdg_empty', b'home_unset', b'home_stale',
+             b'home_notdir', b'tmpdir_ok', b'tmpdir_stale', b'all_stale']
+
+
 def monitor_coldstart(case, out):
     k, after_kill = case[0], case[1]
     addr = case[2].decode() if len(case) > 2 else 'tcp'
+    env = case[3].decode() if len(case) > 3 else 'plain'
     if not isinstance(out, list) or len(out) != k or not all(isinstance(r, list) and len(r) == 4 for r in out):
         return ['the cold-start run did not complete normally: %r' % (out,)]
     vs = []
     for n, (cls, kind, code, ok) in enumerate(out):
+        if env == 'tmpdir_stale':
+            # the one environment fault that is the client's own business: no rendezvous directory can be made.
+            # Still never a false success.
+            if code == 0 and ok != 1:
+                vs.append('TMPDIR unusable: client %d exits 0 without the correct object' % n)
+            continue
         if code != 0 or ok != 1:
-            vs.append('no server running (address %s), %d clients started together%s: client %d (%s) did not '
-                      'start/find a server and deliver the compile: %s, exit %r, correct object %r'
-                      % (addr, k, ' after a killed server' if after_kill else '', n, cls.decode(), kind.decode(), code, ok))
-    if not any(r[0] == b'started' for r in out):
+            vs.append('no server running (address %s, client environment %s), %d clients started together%s: client %d '
+                      '(%s) did not start/find a server and deliver the compile: %s, exit %r, correct object %r'
+                      % (addr, env, k, ' after a killed server' if after_kill else '', n, cls.decode(), kind.decode(), code, ok))
+    if env != 'tmpdir_stale' and not any(r[0] == b'started' for r in out):
         vs.append('no client reports having started the server although none was running')
     return vs[:3]
 
@@ -559,20 +574,25 @@ def gen_coldstart(rng, tier):
     out = []
     for _ in range(reps):
         for k in (1, 2, 6, 12):
-            out.append([k, 0, b'tcp'])
-        out.append([1, 1, b'tcp'])
-        out.append([12, 1, b'tcp'])
+            out.append([k, 0, b'tcp', b'plain'])
+        out.append([1, 1, b'tcp', b'plain'])
+        out.append([12, 1, b'tcp', b'plain'])
         # the address space: Unix sockets, canonical and non-canonical spellings of the path, abstract names
         for a in ADDR_KINDS[1:]:
-            out.append([1, 0, a])
-            out.append([1, 1, a])
-            out.append([rng.choice([2, 6]), rng.below(2), a])
-    out.append([12, 0, b'tcp'])
+            out.append([1, 0, a, b'plain'])
+            out.append([1, 1, a, b'plain'])
+            out.append([rng.choice([2, 6]), rng.below(2), a, b'plain'])
+        # the clients' environment: runtime / home / temporary directories unset, usable, stale, not a directory
+        for e in ENV_KINDS[1:]:
+            out.append([1, 0, b'tcp', e])
+            out.append([rng.choice([1, 2]), 1, rng.choice([b'tcp', b'uds_plain']), e])
+    out.append([12, 0, b'tcp', b'plain'])
     return out
 
 
 def stats_coldstart(case, out):
-    ks = ['k=%d' % case[0], 'addr=' + (case[2].decode() if len(case) > 2 else 'tcp')]
+    ks = ['k=%d' % case[0], 'addr=' + (case[2].decode() if len(case) > 2 else 'tcp'),
+          'env=' + (case[3].decode() if len(case) > 3 else 'plain')]
     try:
         for r in out:
             ks.append('class=' + r[0].decode())
@@ -659,6 +679,54 @@ def shrink_poison(case):
             yield [cc, steps[:i] + steps[i + 1:]]
 
 
+# ---------------------------------------------------------------- bigout leg
+
+BIG_CAP = 20000          # SCCACHE_MAX_FRAME_LENGTH of the server in this leg (a client request is ~1.5 KB)
+LAST = b'noisycc: last line of the diagnostics'
+ENVELOPE = 30            # bincode bytes of a CompileFinished around stdout/stderr (tag, 2 options, 2 lengths, color)
+
+
+def gen_bigout(rng, tier):
+    fit = BIG_CAP - ENVELOPE - len(LAST) - 2          # largest noise that still fits into one frame
+    sizes = [0, 1000, fit - 300, fit - 1, fit, fit + 1, fit + 2, fit + 300, BIG_CAP, 2 * BIG_CAP + 17]
+    out = []
+    for n in sizes:
+        out.append([BIG_CAP, n, 0, LAST])
+    for n in (fit, fit + 1, 2 * BIG_CAP):
+        out.append([BIG_CAP, n, 1, LAST])
+    extra = 40 if tier == 'thorough' else 4
+    for _ in range(extra):
+        out.append([BIG_CAP, rng.range(fit - 50, fit + 50) if rng.chance(1, 2) else rng.range(0, 3 * BIG_CAP),
+                    rng.choice([0, 0, 1, 3]), LAST])
+    if tier == 'thorough':
+        big = 8 * 1024 * 1024
+        fitb = big - ENVELOPE - len(LAST) - 2
+        for n in (fitb, fitb + 1, big + 4096):
+            out.append([big, n, 0, LAST])
+    return out
+
+
+def monitor_bigout(case, out):
+    cap, noise, status, last = case
+    if not isinstance(out, list) or len(out) != 6:
+        return ['the run did not complete normally: %r' % (out,)]
+    kind, why, code, ran, complete, obj = out
+    what = 'compiler writes %d bytes of diagnostics and exits %d, frame limit %d' % (noise + len(last) + 2, status, cap)
+    vs = []
+    if code == status and complete != b'complete':
+        vs.append("%s: the client returned the compiler's exit status with PARTIAL output (%r) [%s/%s]"
+                  % (what, complete, kind.decode(), why.decode()))
+    if code != status and kind != b'error':
+        vs.append('%s: the client returned %d' % (what, code))
+    if kind == b'error' and code == 0:
+        vs.append('%s: sccache error with exit 0' % what)
+    if code == 0 and obj != b'ok':
+        vs.append('%s: exit 0 with a missing or wrong object' % what)
+    if kind == b'error':
+        vs.append('%s: the client neither relayed the result nor compiled locally (%s)' % (what, why.decode()))
+    return vs[:3]
+
+
 # ---------------------------------------------------------------- vanish leg
 
 VANISH_FRAME = frame(compile_req(b'/d/bin/gcc', b'/d/wv', [b'-c', b'unit.c', b'-o', b'unit.o'],
@@ -722,6 +790,13 @@ def legs(tier):
             rule='1-3 connections, each a random mix of valid requests, oversized headers, undecodable frames, '
                  'truncated frames, cut into random chunks and interleaved; a bystander client compiles with real gcc '
                  'meanwhile; non-trivial = a connection was closed by the server or several connections were open'),
+        Leg('bigout', gen_bigout, monitor=monitor_bigout, impl_env=env, shards=4,
+            stats=lambda c, o: ['fits=%d' % (ENVELOPE + c[1] + len(c[3]) + 2 <= c[0]), 'status=%d' % c[2]],
+            nontrivial=lambda c, o: ENVELOPE + c[1] + len(c[3]) + 2 > c[0],
+            rule='real server with SCCACHE_MAX_FRAME_LENGTH=20000 (thorough: also the default 8 MiB); compiler diagnostics '
+                 'of sizes around the exact fit boundary (fit-1, fit, fit+1, ...), far below and far above, compiler '
+                 'status 0 / non-zero; the model predicts relayed vs local fallback to the byte; monitor: the status '
+                 'is delivered only with the COMPLETE diagnostics'),
         Leg('vanish', gen_vanish, monitor=monitor_vanish, impl_env=env, shards=7,
             stats=lambda c, o: ['peer=%s/%s' % (c[0].decode(), c[1].decode())],
             rule='DAEMONISED real server (sccache --start-server; pid through /proc); a peer sends a complete well-formed '
